@@ -13,7 +13,7 @@ CLAIMED = {
         text="Heap.tla models roots exactly as the code has them (context registers, saves stack of registered C locals) with Collect enabled between any two mutator steps; "
              "NoPrematureFree/HeldValid are model checked (and shown to fail, as a negative test, when an unregistered local is held across an allocation). The real collector is driven "
              "along TLC-generated behaviours and its heap compared object by object after every step. Real programs touching the allocating C primitives are run under forced-collection "
-             "schedules (every allocation of sliding windows, every n-th with phases, seeded random; freed memory poisoned) and TLC accepts a run only if every post-GC heap walk is clean and "
+             "schedules (every allocation of sliding windows, every n-th with phases, seeded random, and a collection at each of the N allocations that follow a large allocation, i.e. right after a stack / vector / string / table grew; freed memory poisoned) and TLC accepts a run only if every post-GC heap walk is clean and "
              "its output and exit status equal those of the reference run. A rejected run is bisected to the fatal collection and keyed by the C function holding the unrooted value.",
         design_ref="5/C02",
         note="Schedules are sampled per run in the quick tier (thorough covers every allocation index of each program); programs are a fixed catalogue in harness/scm/gcprogs; "
